@@ -95,6 +95,7 @@ pub fn execute(scn: &WfScn, ctx: &mut Ctx) {
     };
     run_faulted(scn, &g, ctx);
     execute_c05(scn, None, ctx);
+    execute_c02(scn, ctx);
 }
 
 fn run_faulted(scn: &WfScn, g: &Golden, ctx: &mut Ctx) {
@@ -425,5 +426,126 @@ pub fn execute_c05(scn: &WfScn, expect_failed_call: Option<usize>, ctx: &mut Ctx
             crate::fam_rt::check_header_bbox(ctx, "header after a write_shape that failed before transferring a byte", ty, &written, &dec.bbox);
         }
         Err(_) => ctx.stats.reach("c05-file-not-decodable-after-failed-write"),
+    }
+}
+
+
+// ---------------------------------------------------------------------------------------------
+// C02 after a finalize that failed: "every .shp the writer leaves behind after finalize or drop is
+// well-formed" also holds for the file a *successful* finalize / drop leaves behind when an earlier
+// finalize of the same writer had failed (retried at once, later, or never explicitly).
+
+/// Judged when: Direct stack; no panic; every write_shape returned Ok; at least one finalize
+/// failed; no device operation failed from the start of the last explicit finalize on (so that
+/// finalize, or the drop, went through undisturbed) and that last finalize-like call returned Ok.
+pub fn execute_c02(scn: &WfScn, ctx: &mut Ctx) {
+    if scn.w.stack != StackCfg::Direct || scn.w.shapes.is_empty() {
+        return;
+    }
+    let world = World::new(scn.plan.clone());
+    let run = run_writer(&world, &scn.w);
+    if run.build_panic.is_some() {
+        return;
+    }
+    let wb = world.borrow();
+    let mut failed_finalize = false;
+    for m in &run.marks {
+        match &m.res {
+            CallRes::Panic(..) => return,
+            CallRes::Ok => {}
+            _ => {
+                if m.call == "finalize" {
+                    failed_finalize = true;
+                } else {
+                    ctx.stats.reach("c02-fault-hit-a-write");
+                    return;
+                }
+            }
+        }
+    }
+    if !failed_finalize {
+        return;
+    }
+    // from the last explicit finalize (if none succeeded: from the drop) on, nothing may have failed
+    let from = run.marks.iter().rev().find(|m| m.call == "finalize" && m.res.is_ok()).or_else(|| run.marks.iter().rev().find(|m| m.call == "drop")).map(|m| m.first_ev);
+    let Some(from) = from else { return };
+    if wb.log[from..].iter().any(|e| e.err.is_some() || e.fault == Some("zero")) {
+        ctx.stats.reach("c02-last-finalize-disturbed");
+        return;
+    }
+    // a failed finalize after the last successful one must have been followed by the drop
+    if let Some(last_fail) = run.marks.iter().rposition(|m| m.call == "finalize" && !m.res.is_ok()) {
+        let later_ok = run.marks[last_fail..].iter().any(|m| (m.call == "finalize" && m.res.is_ok()) || m.call == "drop");
+        if !later_ok {
+            return;
+        }
+        // the drop's own finalize must then have been undisturbed
+        let drop_from = run.marks.iter().rev().find(|m| m.call == "drop").map(|m| m.first_ev).unwrap_or(wb.log.len());
+        if wb.log[drop_from..].iter().any(|e| e.err.is_some() || e.fault == Some("zero")) {
+            return;
+        }
+    }
+    ctx.stats.reach("c02-file-after-failed-finalize-judged");
+    let ty = scn.w.shapes[0].ty;
+    let written: Vec<&Geom> = run.written.iter().map(|i| &run.geoms[*i]).collect();
+    let shx = if scn.w.with_shx { Some(wb.data(SHX)) } else { None };
+    let _ = crate::fam_rt::check_bytes(ctx, ty, wb.data(SHP), shx, &written, "after-failed-finalize");
+}
+
+/// One unit = one seeded workload with finalize calls anywhere (plain or retried up to three
+/// times) x every device operation of every finalize failed once, on either file.
+pub fn unit_c02(seed: u64, ctx: &mut Ctx, ctl: &mut UnitCtl) {
+    let mut r = Rng::new(seed);
+    let ty = *r.pick(&TYPES);
+    let mut k = ShapeKnobs::draw(&mut r);
+    k.max_parts = k.max_parts.min(3);
+    k.max_pts = k.max_pts.min(4);
+    let n = r.usize(2, 5);
+    let shapes: Vec<ShapeSpec> = (0..n).map(|_| gen_spec(&mut r, ty, &k)).collect();
+    let mut calls: Vec<WCall> = Vec::new();
+    for i in 0..n {
+        calls.push(WCall::W(i));
+        if r.chance(1, 2) {
+            calls.push(if r.chance(1, 2) { WCall::Fin } else { WCall::FinRetry });
+            if r.chance(1, 4) {
+                calls.push(WCall::Fin);
+            }
+        }
+    }
+    if !calls.iter().any(|c| matches!(c, WCall::Fin | WCall::FinRetry)) {
+        calls.insert(1, WCall::FinRetry);
+    }
+    let w = WProg { shapes, others: vec![], calls, ending: if r.chance(1, 2) { Ending::Drop } else { Ending::FinDrop }, with_shx: r.chance(2, 3), stack: StackCfg::Direct };
+    let world = World::new(Plan::default());
+    let run = run_writer(&world, &w);
+    if run.build_panic.is_some() || run.marks.iter().any(|m| !m.res.is_ok()) {
+        ctx.fail("HARNESS", "invalid-scenario", "workload", "generated workload does not run cleanly".to_string());
+        ctl.after_case(ctx, || Scenario::WFault(WfScn { w: w.clone(), plan: Plan::default() }));
+        return;
+    }
+    // per device: the operation indices issued by explicit finalize calls
+    let mut ops: Vec<(u8, u32)> = Vec::new();
+    {
+        let wb = world.borrow();
+        let mut count = [0u32; 3];
+        let in_fin = |ei: usize| run.marks.iter().any(|m| m.call == "finalize" && ei >= m.first_ev && ei < m.end_ev);
+        for (ei, e) in wb.log.iter().enumerate() {
+            let d = e.dev as usize;
+            if in_fin(ei) {
+                ops.push((e.dev, count[d]));
+            }
+            count[d] += 1;
+        }
+    }
+    for (dev, at) in ops {
+        let mut plan = Plan::default();
+        plan.faults.push(Fault { dev, at, kind: FaultKind::Err((at % 4) as u8), persistent: false });
+        let scn = WfScn { w: w.clone(), plan };
+        if !ctl.before_case(|| Scenario::WFault(scn.clone())) {
+            continue;
+        }
+        ctx.stats.evaluations += 1;
+        execute_c02(&scn, ctx);
+        ctl.after_case(ctx, || Scenario::WFault(scn.clone()));
     }
 }
